@@ -79,13 +79,14 @@ let show_entry (e : entry) =
   Printf.sprintf "%s %s %s %s %s %d %d" (enc e.e_group) (enc e.e_key) (enc_opt e.e_value)
     (enc_opt e.e_cbk) (enc_opt e.e_cav) (int_of_n e.e_line) (if e.e_quotes then 1 else 0)
 
-let show_out (o : out) : string =
+let rec show_out (o : out) : string =
   match o with
+  | OAll l -> "all " ^ String.concat "" (List.map (fun o -> show_out o ^ ";") l)
   | ORc e -> rc e
   | OStr (e, v) -> rc e ^ " v=" ^ enc_opt v
   | OInt (e, v) -> rc e ^ " z=" ^ string_of_z v
   | OBool (e, b) -> rc e ^ " b=" ^ (if b then "1" else "0")
-  | OText (e, v) -> rc e ^ " text=" ^ enc_opt v
+  | OText (d, e, v) -> rc e ^ (if d then " dtext=" else " ftext=") ^ enc_opt v
   | OList (e, l) -> rc e ^ " l=" ^ enc_list l
   | OExt (e, x) ->
       Printf.sprintf "%s vals=%s file=%s line=%d cbk=%s cav=%s" (rc e) (enc_list x.x_values)
@@ -97,7 +98,7 @@ let show_out (o : out) : string =
         (int_of_n kf.kf_delim) (int_of_n kf.kf_comment) (enc_opt kf.kf_path)
         (String.concat "|" (List.map show_entry kf.kf_entries))
   | OTags (d, c) -> Printf.sprintf "tags d=%d c=%d" (int_of_n d) (int_of_n c)
-  | OParse (e, l) -> Printf.sprintf "%s line=%d" (rc e) (int_of_n l)
+  | OParse (e, l) -> if int_of_n (err_code e) = 0 then rc e else Printf.sprintf "%s line=%d" (rc e) (int_of_n l)
   | ONoObj -> "noobj"
 
 let parse_cmd (toks : string list) : cmd =
@@ -118,6 +119,7 @@ let parse_cmd (toks : string list) : cmd =
   | ["merge"; d; a; b] -> CMerge (o d, o a, o b)
   | ["write"; a] -> CWrite (o a)
   | ["dump"; a] -> CDump (o a)
+  | ["getall"; a] -> CGetAll (o a)
   | ["path"; a] -> CPath (o a)
   | ["tags"; a] -> CTags (o a)
   | ["settags"; a; d; c] -> CSetTags (o a, n_of_int (i d), n_of_int (i c))
